@@ -157,6 +157,13 @@ NumMustReject(items, vals) ==
       \/ (HasTok(items, td) /\ HasTok(items, tm) /\ HasTok(items, tY) /\ m \in 1..12 /\ dd > C!DaysInMonth(y, m)
              /\ ~(m = 2 /\ dd \in {30, 31} /\ C!IsLeap(y)))          \* known finding F11 is judged where it is reported
       \/ hh > 24 \/ mi > 59 \/ ss > 60 \/ j > 366
+      \* a sixtieth second exists only at 23:59 of a day that ends in an inserted second (Appendix A.4), whether the
+      \* date is given as a day of the month or as a day of the year
+      \/ (ss = 60 /\ ~(hh = 23 /\ mi = 59))
+      \/ (ss = 60 /\ HasTok(items, tY) /\ y \in 1..9999 /\ HasTok(items, tj) /\ ~HasTok(items, tm) /\ ~HasTok(items, td)
+             /\ j \in 1..C!DaysInYear(y) /\ (C!N(y, 1, 1) + j - 1) \notin (LeapDays \cup {Day1971}))
+      \/ (ss = 60 /\ HasTok(items, tY) /\ y \in 1..9999 /\ HasTok(items, tm) /\ HasTok(items, td) /\ ~HasTok(items, tj)
+             /\ m \in 1..12 /\ dd \in 1..C!DaysInMonth(y, m) /\ C!N(y, m, dd) \notin (LeapDays \cup {Day1971}))
       \/ (HasTok(items, tj) /\ (j = 0 \/ (HasTok(items, tY) /\ j > C!DaysInYear(y))))   \* day 0, day 366 of a common year
 (* ... followed by the offset token: the numeric items, then %z as the last item.  The sentence ends in        *)
 (* [+-]HH:MM; the part before it is a sentence of the numeric items (the last of which may be followed by a    *)
